@@ -170,3 +170,22 @@ def run(ck):
     fr = [l for l in loops(sb) if sb.nodes[l]['k'] == 'CXXForRangeStmt' and sb.nodes[sb.strip(sb.nodes[l]['range'])].get('m') == KT + 'buckets_']
     ck.ob('C05.dht', 'C05.dht/all-buckets', len(fr) == 1 and bool(sb.calls(rx(r'deque<.*PeerContact.*::erase$'), sb.nodes[fr[0]]['body'])) if fr else False,
           sb.loc(), 'sweep_buckets visits every bucket')
+    # every locator's holders are pruned on every pass: the per-holder erase(remove_if(expired)) is met in each iteration of the
+    # locator loop before it moves on (a locator's own deadline is the longest-lived provider's, so it says nothing about the others)
+    from sa.paths import Cfg as _Cfg
+    lps = [l for l in loops(se) if se.nodes[l]['k'] == 'ForStmt' and any(se.nodes[j].get('m') == KT + 'table_' for j in se.walk(l))]
+    prunes = [i for i in se.walk() if (se.nodes[i].get('callee') or '').endswith('::erase') and
+              any(se.nodes[j].get('callee') == 'std::remove_if' for j in se.walk(i))]
+    ck.floor('C05.dht', 'locator loop in KademliaTable::sweep_expired', len(lps), 1)
+    cfg_se = _Cfg.of(se)
+    for lp in lps[:1]:
+        body = se.nodes[lp]['body']
+        first = cfg_se.locate(se.kids(body)[0]) if se.kids(body) else None
+        start = first[0] if first else None
+        wit = ['loop body not found'] if start is None else must_pass_before_next_iteration(
+            se, start, lambda e: e in prunes or any(se.is_in(x, e) for x in prunes) and se.nodes[e]['k'] in ('ExprWithCleanups', 'CXXMemberCallExpr'), lp)
+        # the required element may sit in the first block itself
+        if wit is not None and start is not None and any(isinstance(e, int) and (e in prunes or any(se.is_in(x, e) for x in prunes)) for e in cfg_se.blocks[start]['e']):
+            wit = None
+        ck.ob('C05.dht', 'C05.dht/holders-pruned-every-pass', bool(prunes) and wit is None, se.loc(lp),
+              'each iteration of the locator loop removes the expired holders before it decides about the locator', wit)
